@@ -67,7 +67,9 @@ class RemoteLogHandler(mlzlog.Handler):
             subscriptions = self.subscriptions[modname]
         except KeyError:
             return
-        for conn, lev in subscriptions.items():
+        # iterate over a snapshot: other threads (requests, clean up of closed
+        # connections) change the subscriptions while a record is delivered
+        for conn, lev in list(subscriptions.items()):
             if record.levelno >= lev:
                 self.send_log(  # pylint: disable=not-callable
                     conn, modname, LEVEL_NAMES[record.levelno],
